@@ -2,6 +2,7 @@ package main
 
 import (
 	"fmt"
+	"runtime"
 	"sort"
 	"sync"
 	"time"
@@ -203,6 +204,16 @@ func c01FullRestart(c *lib.Ctx) {
 			}
 		})
 		x.nudge()
+		if r.Intn(3) == 0 {
+			// a checkpoint is requested the instant the job runs again: the split assignment has been delivered
+			// to the runners (the job waits for that) but their loops may not have taken it yet
+			for dl := time.Now().Add(cluster.Watchdog); x.cl.Job.VerifStatus() != "Running" && time.Now().Before(dl); {
+				runtime.Gosched()
+			}
+			if x.checkpoint(10*time.Second) != nil {
+				c.Feat("checkpoints_at_the_instant_of_running", 1)
+			}
+		}
 		x.waitAssigned(k + 2)
 	}
 	x.src.SetLimit(o.perSplit)
